@@ -1,6 +1,8 @@
 /- Driver ops for Tetris.  Ops: tetris.state, tetris.step, tetris.judge, tetris.reset, tetris.table -/
 import JumanjiModel.Bridge.Json
 import JumanjiModel.Env.Tetris.Model
+import JumanjiModel.Env.Tetris.Bounds
+import JumanjiModel.Bridge.PuzzleBounds
 open Lean Jb
 
 namespace Jb.Tetris
@@ -107,7 +109,13 @@ def opReset : Op := fun j => do
 def opTable : Op := fun _ => do
   pure (jObj [("tetrominoes", jList (jList jNatGrid) tetrominoes), ("reward_list", jRats rewardList)])
 
+/-- C01 bounds op: {"cfg"} → the proved interval of every observation leaf -/
+def opBounds : Op := fun j => do
+  let cfg ← getCfg (← field j "cfg")
+  pure (jBoundsTable (obsBounds cfg))
+
 def ops : List (String × Op) :=
   [("tetris.step", opStep), ("tetris.state", opState), ("tetris.judge", opJudge),
-   ("tetris.reset", opReset), ("tetris.table", opTable)]
+   ("tetris.reset", opReset), ("tetris.table", opTable),
+   ("tetris.bounds", opBounds)]
 end Jb.Tetris
